@@ -100,7 +100,7 @@ theorem cg_stmt_facts (lv : Nat) : ∀ (s : Stmt), cgStmt lv s = true → StmtFa
   | .switch hdr cs, h => by
     simp only [cgStmt, Bool.and_eq_true] at h
     have f1 := cg_cases_facts lv hdr.name cs h.2
-    obtain ⟨a, b⟩ := nameOK_split hdr.name h.1.1.1.1.2
+    obtain ⟨a, b⟩ := nameOK_split hdr.name h.1.1.1.2
     exact ⟨by simp [okStmt, b, f1.ok], by simp [wStmt, a, f1.w]⟩
   | .macroCall .., h => by simp [cgStmt] at h
 theorem cg_stmts_facts (lv : Nat) : ∀ (ss : Stmts), cgStmts lv ss = true → StmtsFacts ss
